@@ -254,6 +254,13 @@ def compare_reads(omd, m, cls, out, opname):
             exp.append((k, pools[idx][j]))
         if r[0] != 'ok' or r[1] != exp:
             return bad('sortedvalues(reverse=%r)' % rev, r, exp)
+    # a key function with ties: the sort must be stable in both directions (tied pairs keep their current order)
+    for rev in (False, True):
+        for nm, kt in (('by key', lambda i: repr(i[0])), ('constant', lambda i: 0)):
+            r = _call(lambda: omd.sorted(key=kt, reverse=rev).items(multi=True))
+            exp = sorted(pairs, key=kt, reverse=rev)
+            if r[0] != 'ok' or r[1] != exp:
+                return bad('sorted(key with ties %s, reverse=%r)' % (nm, rev), r, exp)
     if all(type(k) is int and type(v) is int for k, v in pairs):
         r = _call(lambda: omd.sorted().items(multi=True))
         if r[0] != 'ok' or r[1] != sorted(pairs):
@@ -284,6 +291,20 @@ def compare_reads(omd, m, cls, out, opname):
     d4 = dict(plain)
     d4['extra-key'] = 1
     eqs.append(('== dict with one key more', d4, False))
+    # same number of keys, one key replaced by a foreign one (a lookup of the missing key must not count as "value None")
+    for k_ in keys:
+        d6 = dict(plain)
+        del d6[k_]
+        d6['foreign-key'] = plain[k_]
+        eqs.append(('== dict with one key replaced by another', d6, False))
+        break
+    for k_ in keys:
+        if plain[k_] is None:
+            d7 = dict(plain)
+            del d7[k_]
+            d7['foreign-key'] = 1
+            eqs.append(('== dict lacking a key whose value here is None', d7, False))
+            break
     # an instance of a subclass of the class under test is an OMD too: same answers, whichever side it is on
     sub_cls = _SUBCLASSES.get(cls)
     if sub_cls is None:
